@@ -573,3 +573,93 @@ FN = Stream('smooth_interp_fn', 'h_smoothinterp', 'smoothinterp', gen_fn, oracle
             whitebox=['ref_smooth', 'ref_split', 'ref_interp'], session='grid', nontrivial=nontrivial, timeout=900)
 RUN = Stream('smooth_interp_run', 'h_smoothinterp', 'smoothinterp', gen_run, oracle=oracle, kind='validate',
              whitebox=['ref_smooth', 'ref_split', 'ref_interp'], session='grid', nontrivial=nontrivial, timeout=900)
+
+
+# ------------------------------------------------------------------ end to end: `ref adapt -m` on strips
+def strip_case(d):
+    """mesh and log-linear field of a strip scenario, regenerated from the op keys"""
+    n = int(d.get('n', '10'))
+    dl, w, eps = float(d.get('d', '0.06')), float(d.get('w', '0.1')), float(d.get('eps', '0.002'))
+    v, t, e = strip(n, dl, w, eps)
+    if d.get('field', 'bl') == 'bl':
+        L = strip_field(float(d.get('shift', '0')))
+    else:  # coarse along the strip, growing with x
+        L = [-2 * math.log(float(d.get('hx', '2.0'))), 0.0, 0.0, -2 * math.log(0.06), 0.0, 0.0,
+             float(d.get('gx', '1.0')), 0.0, 0.0, 0.1, 0.0, 0.0, 0.0, 0.0, 0.0, 0.3, 0.0, 0.0] + [0.0] * 6
+    return v, t, e, L
+
+
+def sc_adapt_strip(ctx, d, case):
+    v, t, e, L = strip_case(d)
+    mesh = os.path.join(case, 'in.meshb')
+    pyio.write_meshb(mesh, 2, [(p[0], p[1]) for p in v], {'tri': t, 'edg': e})
+    vals = []
+    for p in v:
+        m = expm6(Lat(L, p))
+        vals.append([m[0], m[1], m[3]])
+    met = os.path.join(case, 'in-metric.solb')
+    pyio.write_solb(met, 2, vals, [3])
+    np = int(d.get('np', '0'))
+    args = ['adapt', mesh, '--metric', met, '-x', os.path.join(case, 'out.meshb'), '-s', d.get('passes', '2'),
+            '--export-metric-as', os.path.join(case, 'out-metric.solb')]
+    rc, tail = cli.run_ref(ctx, np, args, case, timeout=600, env_extra=cli.knobs(d))
+    return 'rc=%d dir=%s' % (rc, case)
+
+
+cli.SCENARIOS['adapt_strip'] = sc_adapt_strip
+
+
+def gen_adapt_strip(rng, tier, np=0):
+    ops = []
+    reps = 1 if tier == 'quick' else 3
+    for _ in range(reps):
+        for passes in ((1, 5) if not np else (3,)):
+            ops.append('adapt_strip n=%d d=0.06 w=0.1 eps=%s field=bl shift=%.3f passes=%d np=%d%s' % (
+                rng.randint(8, 13), rng.choice(['0.002', '0.003']), rng.uniform(-0.4, 0.2), passes, np,
+                ' full=1' if np else ''))
+        ops.append('adapt_strip n=%d d=0.01 w=0.05 eps=0.02 field=long hx=%.3f gx=%.3f passes=%d np=%d' % (
+            rng.randint(650, 750), rng.uniform(1.5, 2.5), rng.uniform(0.8, 1.2), rng.choice([4, 5]), np))
+    return ops
+
+
+def oracle_adapt_strip(ops, impl):
+    bad = []
+    for i, (op, line) in enumerate(zip(ops, impl)):
+        d = cli.kv(op)
+        o = cli.parse_out(line)
+        if o.get('rc') != '0':
+            bad.append((i, 'adapt of a strip with a log-linear metric exited with status %s' % o.get('rc')))
+            continue
+        try:
+            mo = pyio.read_meshb(os.path.join(o['dir'], 'out.meshb'))
+            so = pyio.read_solb(os.path.join(o['dir'], 'out-metric.solb'))
+        except Exception as ex:
+            bad.append((i, 'output unreadable: %r' % (ex,)))
+            continue
+        if len(so['values']) != len(mo['verts']):
+            bad.append((i, 'metric file has %d entries for %d vertices' % (len(so['values']), len(mo['verts']))))
+            continue
+        v, t, e, L = strip_case(d)
+        nbad, worst, where = 0, 0.0, None
+        for n, row in enumerate(so['values']):
+            p = list(mo['verts'][n]) + [0.0, 0.0]
+            wm = expm6(Lat(L, p[:3]))
+            ref = [wm[0], wm[1], wm[3]]
+            sc = max(abs(x) for x in ref)
+            err = max(abs(a - b) for a, b in zip(row, ref)) / sc
+            if not err <= TOL_M:
+                nbad += 1
+                if err > worst or where is None:
+                    worst, where = err, (n, tuple(p[:2]))
+        if nbad:
+            bad.append((i, 'C05 log-linear input metric not reproduced at %d of %d output vertices; worst: vertex %d at %s, '
+                           'relative error %.3e' % (nbad, len(so['values']), where[0], where[1], worst)))
+    return bad
+
+
+ADAPT_STRIP = Stream('cli_adapt_strip', cli.cli_harness, None, gen_adapt_strip, oracle=oracle_adapt_strip, kind='oracle',
+                     nontrivial=lambda op, out: out.startswith('rc=0'), timeout=1800)
+ADAPT_STRIP_MPI = Stream('cli_adapt_strip_mpi', cli.cli_harness, None, gen_adapt_strip, oracle=oracle_adapt_strip,
+                         kind='oracle', np=[2], nontrivial=lambda op, out: out.startswith('rc=0'), timeout=1800)
+
+STREAMS = [FN, RUN, ADAPT_STRIP, ADAPT_STRIP_MPI]
